@@ -359,6 +359,12 @@ type rd struct {
 	val  string
 }
 
+type rdAt struct {
+	name string
+	pos  int
+	key  string
+}
+
 func (d rd) matches(rec world.CmdRec) bool {
 	if world.Lower(rec.Args[0]) != d.name || len(rec.Args) < 2 {
 		return false
@@ -643,6 +649,61 @@ func c10Scenarios(tier string) []*world.Scenario {
 			}
 			mk("writes-with-replicas/"+cmd+"-then-set", []Req{first, set(a0, "w"), set(a1, "u")},
 				[]rd{{cmd, []string{a0}, ""}, {"set", []string{a0}, "w"}, {"set", []string{a1}, "u"}})
+		}
+	}
+	// scripts and other single-key writes pipelined in front of a write to the same key, on nodes that answer -MOVED for
+	// slots they do not own (a request routed by the wrong argument detours and arrives late)
+	{
+		for _, cmd := range []string{"eval", "evalsha", "setex", "linsert", "hset", "zadd", "setrange", "expire", "rpush"} {
+			var args []string
+			switch cmd {
+			case "eval":
+				args = []string{"eval", "redis.call('set',KEYS[1],ARGV[1])", "1", a0, "x"}
+			case "evalsha":
+				args = []string{"evalsha", "e0e1f9fabfc9d4800c877a703b823ac0578ff8db", "1", a0, "x"}
+			case "setex":
+				args = []string{"setex", a0, "100", "x"}
+			case "linsert":
+				args = []string{"linsert", a0, "before", "p", "x"}
+			case "hset":
+				args = []string{"hset", a0, "f", "x"}
+			case "zadd":
+				args = []string{"zadd", a0, "1", "x"}
+			case "setrange":
+				args = []string{"setrange", a0, "0", "x"}
+			case "expire":
+				args = []string{"expire", a0, "100"}
+			case "rpush":
+				args = []string{"rpush", a0, "x", "y"}
+			}
+			first := Req{Kind: strings.ToUpper(cmd), Bytes: world.Cmd(args...)}
+			sc := c10Scenario("write-then-set/"+cmd, [][]Req{{first, set(a0, "w"), set(a1, "u")}},
+				[][]rd{{{cmd, []string{a0}, ""}, {"set", []string{a0}, "w"}, {"set", []string{a1}, "u"}}}, b)
+			if cmd == "eval" || cmd == "evalsha" {
+				// the key of a script is its third argument
+				ksets := []rdAt{{cmd, 3, a0}, {"set", 1, a0}, {"set", 1, a1}}
+				inner := sc.Check
+				sc.Check = func(w *world.World) []world.Violation {
+					vs := inner(w)
+					last := -1
+					for _, rec := range w.DataCmds(AddrA) {
+						for j, d := range ksets {
+							if world.Lower(rec.Args[0]) == d.name && d.pos < len(rec.Args) && string(rec.Args[d.pos]) == d.key {
+								if j < last {
+									vs = append(vs, world.Violation{Sig: "per-node-order-violated", Msg: fmt.Sprintf("node %s received request %d after request %d: %q", AddrA, j, last, rec.Raw)})
+								}
+								if j > last {
+									last = j
+								}
+							}
+						}
+					}
+					return vs
+				}
+			}
+			sc.CheckOwner = true
+			sc.Family = "write-then-set"
+			out = append(out, sc)
 		}
 	}
 	// more fragments for one node than one vectored write takes (1024 slices), queued by a single loop round
